@@ -3,8 +3,10 @@ C02 / C03 — the message level with EDNS (stage 2).
 
 The OPT record that `emit_message_parts` appends after the additional section with its own
 `emit_iter` (`Record::from(&Edns)`, `rcode_high` taken from the header's response code), with
-options of unknown codes (≠ 3, 5, 8) and NSID (`OptOK`; the DAU and client-subnet options, which the
-decoder normalises, are NOT covered): `emits_optEntries` / `parseOpt_optBytes` (the option list),
+options of all four kinds (`OptOK`): unknown codes (≠ 3, 5, 8), NSID, DAU and client-subnet — the
+last two in the form the decoder produces (DAU: algorithms from, and in the order of,
+`SupportedAlgorithms::iter`; subnet: family 1 / 2, address padded with zero octets behind the prefix
+octets), because the decoder normalises them: `emits_optEntries` / `parseOpt_optBytes` (the option list),
 `emits_optRecord` / `reads_optRecord` / `ednsFrom_optRecord` (`Edns::from(&Record)` inverts it),
 `optSection_any` (written, or dropped and rolled back), `readRecords_optStep`, and
 
@@ -25,30 +27,78 @@ open HickoryVerif HickoryVerif.Name HickoryVerif.Wire HickoryVerif.C03
 def optValBytes : OptVal → Bytes
   | .unknown _ d => d
   | .nsid d => d
-  | _ => []
+  | .dau algs => algs
+  | .subnet family sp scope addr => u16b family ++ ([sp, scope] ++ addr.take (subnetAddrLen sp))
 
 /-- the RDATA octets of an OPT record -/
 def optBytes (os : List OptEntry) : Bytes :=
   (os.map fun o => u16b o.code ++ u16b (optValLen o.val) ++ optValBytes o.val).flatten
 
-/-- an option the proof covers: an unknown-code option (not DAU / client-subnet / NSID codes) or NSID -/
+/-- a client-subnet option in the form the decoder produces: family 1 / 2, the address 4 / 16 octets
+long, the source prefix within it, every octet behind the prefix octets zero -/
+def SubnetOK (family sp scope : Nat) (addr : Bytes) : Prop :=
+  (family = 1 ∨ family = 2) ∧ sp < 256 ∧ scope < 256 ∧
+  addr.length = (if family = 1 then 4 else 16) ∧ subnetAddrLen sp ≤ addr.length ∧
+  addr = addr.take (subnetAddrLen sp) ++ List.replicate (addr.length - subnetAddrLen sp) 0
+
+/-- an option the proof covers: an unknown-code option, NSID, a DAU option listing algorithms in the
+order (and from the set) `SupportedAlgorithms::iter` yields, a client-subnet option in decoded form -/
 def OptOK (o : OptEntry) : Prop :=
   o.code < 65536 ∧ (optValBytes o.val).length < 65536 ∧
-  ((∃ d, o.val = .unknown o.code d ∧ o.code ≠ 3 ∧ o.code ≠ 5 ∧ o.code ≠ 8) ∨ (∃ d, o.val = .nsid d ∧ o.code = 3))
+  ((∃ d, o.val = .unknown o.code d ∧ o.code ≠ 3 ∧ o.code ≠ 5 ∧ o.code ≠ 8) ∨
+   (∃ d, o.val = .nsid d ∧ o.code = 3) ∨
+   (∃ algs, o.val = .dau algs ∧ o.code = 5 ∧ dauAlgs algs = algs) ∨
+   (∃ family sp scope addr, o.val = .subnet family sp scope addr ∧ o.code = 8 ∧ SubnetOK family sp scope addr))
+
+theorem dauAlgs_mem {algs : List Nat} (h : dauAlgs algs = algs) : ∀ a ∈ algs, a < 256 := by
+  intro a ha
+  rw [← h] at ha
+  simp only [dauAlgs, List.mem_filter, List.mem_cons, List.not_mem_nil, or_false] at ha
+  omega
+
+theorem parseSubnet_ok (family sp scope : Nat) (addr : Bytes) (h : SubnetOK family sp scope addr) :
+    parseSubnet (optValBytes (.subnet family sp scope addr)) = .ok (.subnet family sp scope addr) := by
+  obtain ⟨hf, hsp, hsc, hlen, hle, hz⟩ := h
+  have hl : (addr.take (subnetAddrLen sp)).length = subnetAddrLen sp := by
+    rw [List.length_take]; omega
+  have hfam : family / 256 % 256 * 256 + family % 256 = family := by omega
+  simp only [optValBytes, u16b, List.cons_append, List.nil_append, parseSubnet, hfam]
+  rw [if_pos hf]
+  have hw : (if family = 1 then 4 else 16) = addr.length := hlen.symm
+  simp only [hw]
+  have hsub : sp / 8 + (if sp % 8 > 0 then 1 else 0) = subnetAddrLen sp := rfl
+  simp only [hsub, hl]
+  rw [if_neg (by omega), if_neg (by omega)]
+  rw [List.take_take, Nat.min_self]
+  rw [← hz]
 
 theorem mkOpt_ok (o : OptEntry) (h : OptOK o) : mkOpt o.code (optValBytes o.val) = .ok o := by
   obtain ⟨h1, h2, h3⟩ := h
   obtain ⟨code, val⟩ := o
-  rcases h3 with ⟨d, hv, n3, n5, n8⟩ | ⟨d, hv, hc⟩
+  rcases h3 with ⟨d, hv, n3, n5, n8⟩ | ⟨d, hv, hc⟩ | ⟨algs, hv, hc, hd⟩ | ⟨family, sp, scope, addr, hv, hc, hs⟩
   · simp only at hv n3 n5 n8; subst hv
     simp [mkOpt, optValBytes, n3, n5, n8]
   · simp only at hv hc; subst hv; subst hc
     simp only [optValBytes] at h2
     simp [mkOpt, optValBytes]; omega
+  · simp only at hv hc; subst hv; subst hc
+    simp [mkOpt, optValBytes, hd]
+  · simp only at hv hc; subst hv; subst hc
+    simp only [mkOpt]
+    rw [if_neg (by decide), if_pos trivial, parseSubnet_ok family sp scope addr hs]
+    rfl
 
 theorem optValLen_ok (o : OptEntry) (h : OptOK o) : optValLen o.val = (optValBytes o.val).length := by
   obtain ⟨h1, h2, h3⟩ := h
-  rcases h3 with ⟨d, hv, _⟩ | ⟨d, hv, _⟩ <;> rw [hv] at h2 ⊢ <;> simp only [optValBytes, optValLen] at h2 ⊢ <;> omega
+  rcases h3 with ⟨d, hv, _⟩ | ⟨d, hv, _⟩ | ⟨algs, hv, _, _⟩ | ⟨family, sp, scope, addr, hv, _, hs⟩
+  · rw [hv] at h2 ⊢; simp only [optValBytes, optValLen] at h2 ⊢; omega
+  · rw [hv] at h2 ⊢; simp only [optValBytes, optValLen] at h2 ⊢; omega
+  · rw [hv] at h2 ⊢; simp only [optValBytes, optValLen] at h2 ⊢; omega
+  · rw [hv]
+    obtain ⟨_, _, _, _, hle, _⟩ := hs
+    simp only [optValBytes, optValLen, u16b, List.length_append, List.length_cons, List.length_nil,
+      List.length_take]
+    omega
 
 theorem parseOpt_optBytes (total : Nat) : ∀ (os : List OptEntry) (acc : List OptEntry),
     (∀ o ∈ os, OptOK o) → (∀ o ∈ os, (optValBytes o.val).length ≤ total) →
@@ -82,8 +132,31 @@ theorem parseOpt_optBytes (total : Nat) : ∀ (os : List OptEntry) (acc : List O
       simp only [hlt, ↓reduceDIte, List.take_left, List.drop_left, mkOpt_ok o ho]
       simpa [List.reverse_cons, List.append_assoc] using ih
 
+theorem emits_u8s : ∀ (bs : List Nat), (∀ b ∈ bs, b < 256) →
+    Emits (seqAll (bs.map fun a => fun e => e.emitU8 a)) (laySeg bs)
+  | [], _ => by simpa [seqAll] using emits_nothing_seg
+  | b :: bs, h => by
+    have ih := emits_u8s bs (fun x hx => h x (by simp [hx]))
+    have hb : b % 256 = b := Nat.mod_eq_of_lt (h b (by simp))
+    have h1 := emits_emitU8 b
+    rw [hb] at h1
+    simpa [seqAll] using emits_seg_seq h1 ih
+
 theorem emits_optVal (o : OptEntry) (h : OptOK o) : Emits (emitOptVal o.val) (laySeg (optValBytes o.val)) := by
-  rcases h.2.2 with ⟨d, hv, _⟩ | ⟨d, hv, _⟩ <;> rw [hv] <;> exact emits_emitSlice d
+  rcases h.2.2 with ⟨d, hv, _⟩ | ⟨d, hv, _⟩ | ⟨algs, hv, _, hd⟩ | ⟨family, sp, scope, addr, hv, _, hs⟩
+  · rw [hv]; exact emits_emitSlice d
+  · rw [hv]; exact emits_emitSlice d
+  · rw [hv]; exact emits_u8s algs (dauAlgs_mem hd)
+  · rw [hv]
+    obtain ⟨_, hsp, hsc, _, hle, _⟩ := hs
+    simp only [emitOptVal, optValBytes, seqAll, if_pos hle]
+    have h1 := emits_emitU8 sp
+    have h2 := emits_emitU8 scope
+    rw [Nat.mod_eq_of_lt hsp] at h1
+    rw [Nat.mod_eq_of_lt hsc] at h2
+    have := emits_seg_seq (emits_emitU16 family) (emits_seg_seq h1 (emits_seg_seq h2
+      (emits_seg_seq (emits_emitSlice (addr.take (subnetAddrLen sp))) emits_nothing_seg)))
+    simpa [u16b] using this
 
 theorem emits_optEntries : ∀ (os : List OptEntry), (∀ o ∈ os, OptOK o) →
     Emits (emitOptEntries os) (laySeg (optBytes os))
@@ -102,7 +175,29 @@ theorem emits_optEntries : ∀ (os : List OptEntry), (∀ o ∈ os, OptOK o) →
     rw [hb]
     exact this
 
-theorem modeKeeper_optEntries (os : List OptEntry) (h : ∀ o ∈ os, OptOK o) : ModeKeeper (emitOptEntries os) := by
+theorem modeKeeper_optVal (v : OptVal) : ModeKeeper (emitOptVal v) := by
+  cases v with
+  | dau algs =>
+    refine modeKeeper_seqAll _ ?_
+    intro f hf
+    simp only [List.mem_map] at hf
+    obtain ⟨a, _, rfl⟩ := hf
+    exact modeKeeper_emitU8 a
+  | subnet family sp scope addr =>
+    refine modeKeeper_seqAll _ ?_
+    intro g hg
+    simp only [List.mem_cons, List.not_mem_nil, or_false] at hg
+    rcases hg with rfl | rfl | rfl | rfl
+    · exact modeKeeper_emitU16 _
+    · exact modeKeeper_emitU8 _
+    · exact modeKeeper_emitU8 _
+    · by_cases hle : subnetAddrLen sp ≤ addr.length
+      · simp only [hle, ↓reduceIte]; exact modeKeeper_emitSlice _
+      · simp only [hle, ↓reduceIte]; intro e; exact ⟨rfl, rfl⟩
+  | nsid d => exact modeKeeper_emitSlice d
+  | unknown c d => exact modeKeeper_emitSlice d
+
+theorem modeKeeper_optEntries (os : List OptEntry) (_h : ∀ o ∈ os, OptOK o) : ModeKeeper (emitOptEntries os) := by
   unfold emitOptEntries
   refine modeKeeper_seqAll _ ?_
   intro f hf
@@ -114,7 +209,7 @@ theorem modeKeeper_optEntries (os : List OptEntry) (h : ∀ o ∈ os, OptOK o) :
   rcases hg with rfl | rfl | rfl
   · exact modeKeeper_emitU16 _
   · exact modeKeeper_emitU16 _
-  · rcases (h o ho).2.2 with ⟨d, hv, _⟩ | ⟨d, hv, _⟩ <;> rw [hv] <;> exact modeKeeper_emitSlice d
+  · exact modeKeeper_optVal _
 
 theorem optBytes_len_le (os : List OptEntry) : ∀ o ∈ os, (optValBytes o.val).length ≤ (optBytes os).length := by
   induction os with
@@ -126,7 +221,7 @@ theorem optBytes_len_le (os : List OptEntry) : ∀ o ∈ os, (optValBytes o.val)
     · omega
     · have := ih o ho; omega
 
-/-- an `Edns` the round-trip proof covers: options of unknown codes and NSID, fields in range -/
+/-- an `Edns` the round-trip proof covers: options per `OptOK`, fields in range -/
 structure EdnsWF (ed : Edns) : Prop where
   opts : ∀ o ∈ ed.options, OptOK o
   high : ed.rcodeHigh < 256
@@ -698,3 +793,24 @@ theorem emitLimited_decodes_edns_partial (opq : Nat → Rd Bytes) (m : Message) 
   | err k e' => rw [hr] at h; simp at h
   | panic s => rw [hr] at h; simp at h
 end HickoryVerif.C03
+
+namespace HickoryVerif.C02
+open HickoryVerif HickoryVerif.Wire
+
+/-- non-vacuity: an `Edns` carrying one option of each kind satisfies `EdnsWF` -/
+def exEdns : Edns :=
+  { rcodeHigh := 0, version := 0, dnssecOk := true, z := 0, maxPayload := 1232,
+    options := [⟨10, .unknown 10 [1, 2, 3, 4, 5, 6, 7, 8]⟩, ⟨3, .nsid [110, 115, 49]⟩,
+                ⟨5, .dau [8, 13, 15]⟩, ⟨8, .subnet 1 24 0 [192, 0, 2, 0]⟩] }
+
+theorem exEdns_wf : EdnsWF exEdns := by
+  refine ⟨?_, by decide, by decide, by decide, by decide, by decide⟩
+  intro o ho
+  simp only [exEdns, List.mem_cons, List.not_mem_nil, or_false] at ho
+  rcases ho with rfl | rfl | rfl | rfl
+  · exact ⟨by decide, by decide, Or.inl ⟨_, rfl, by decide, by decide, by decide⟩⟩
+  · exact ⟨by decide, by decide, Or.inr (Or.inl ⟨_, rfl, rfl⟩)⟩
+  · exact ⟨by decide, by decide, Or.inr (Or.inr (Or.inl ⟨_, rfl, rfl, by decide⟩))⟩
+  · exact ⟨by decide, by decide, Or.inr (Or.inr (Or.inr ⟨_, _, _, _, rfl, rfl,
+      by decide, by decide, by decide, by decide, by decide, by decide⟩))⟩
+end HickoryVerif.C02
